@@ -79,7 +79,7 @@ def build(e, cfg, d='/ds'):
         ks = []
         prev = 0
         for i in range(ns):
-            k = e.int('k%d' % i, 0, 2 ** 31)
+            k = e.int('k%d' % i, 0, 2 ** 40)
             if not cfg.get('allow_unsorted'):
                 e.assume(k >= prev)
             prev = k
